@@ -9,6 +9,7 @@ H = V + "header::Header"
 E = V + "elevation_data_block::ElevationDataBlock"
 FN = V + "decode_volume_coverage_pattern"
 DES = "nexrad_decode::util::deserialize::<%s>"
+VM = V + "message::Message"
 DEFS = V + "definitions::"
 
 # accessor -> (field, width, lo bit, hi bit)   (documented bit positions, inclusive)
@@ -75,6 +76,43 @@ def strip_unit(chk, t, unit, anchor, where):
     return t
 
 
+def collected_form(chk, prog, fn):
+    """the decoder without an explicit loop: header, then `number_of_elevation_cuts` blocks read in order by a collected
+    iterator chain over 0..n, any failure returned as the error"""
+    reader = P(fn.local_name(1) or "arg1")
+    hdr = ("call", DES % H, (reader,))
+    blk = ("call", DES % E, (reader,))
+    ev = sym.Evaluator(prog, opaque_local=["nexrad_decode::util::deserialize"])
+    got, _ = eval_or_blind(chk, ev, "VN", FN)
+    if got is None:
+        return
+    chk.trust("Iterator::collect::<Result<Vec<_>, E>>() yields the elements' Ok payloads in order, or the first Err (core docs)")
+    n = fld(("vfld", hdr, "Ok", "0"), "number_of_elevation_cuts")
+    sq = ("seq", adt("core::ops::range::Range", "Range", (("start", C(0, "u16")), ("end", n))), (), blk)
+    want = sym.res_match(hdr, lambda h: sym.res_match(sq, lambda v: ok(adt(VM, "Message", (("header", h), ("elevations", v)))), lambda e: err(("conv", e))),
+                         lambda e: err(("conv", e)))
+    chk.ob("VN", FN, True, "0 loop(s) in the decoder: the cuts are read by an iterator chain", fn.where(), key="one-loop")
+    starts = [x for x in sym._leaves(got, []) if x[0] == "adt" and x[2] == "Ok"]
+    seqs = set()
+
+    def find(t):
+        if isinstance(t, tuple) and t:
+            if t[0] == "seq":
+                seqs.add(t)
+                return
+            for x in (t if isinstance(t[0], tuple) else t[1:]):
+                if isinstance(x, tuple):
+                    find(x)
+    find(got)
+    one = len(seqs) == 1
+    sq_got = next(iter(seqs)) if one else None
+    chk.ob("VN", FN + "#cuts", one and sq_got[1][0] == "adt" and loops.const_value(fld(sq_got[1], "start")) == 0, "the chain starts at 0", fn.where(), key="start")
+    if one:
+        expect(chk, "VN", FN + "#cuts", loops.strip_widen(fld(sq_got[1], "end")), n, fn.where(), "cut loop bound")
+        chk.ob("R-LIN", FN + "#cuts", sq_got[2] == () and sq_got[3] == blk, "each element is the block decoded for it, nothing is filtered (element: %s)" % show(sq_got[3])[:120], fn.where(), key="push")
+    expect(chk, "R-ERR", FN, got, want, fn.where(), "header error, first cut error, or Message::new(header, cuts in order)", key="pre-loop-returns")
+
+
 def run(chk, tier):
     prog, info = common.program("all")
     common.note_extraction(chk, info, prog)
@@ -98,6 +136,10 @@ def run(chk, tier):
         except sym.Undecided as e:
             ls = None
             chk.blind("VN", FN, "decode loop could not be summarised: %s" % e, fn.where())
+        if ls is not None and len(ls) == 0:
+            # no loop in the decoder itself: the cuts may be read by an iterator chain `(0..n).map(|_| deserialize(reader)).collect::<Result<Vec<_>>>()?`
+            ls = None
+            collected_form(chk, prog, fn)
         if ls is not None:
             chk.ob("VN", FN, len(ls) == 1, "%d loop(s) in the decoder (one expected)" % len(ls), fn.where(), key="one-loop")
             if len(ls) == 1:
